@@ -4,6 +4,9 @@
 //
 //   - every exported constant of params/params.go (the non-spsa file; the set of names is read from
 //     the package, not listed here),
+//   - the spsa build (params/spsa.go, loaded with the tag): the exported variables with their initial
+//     values, the rows of the `tunables` table (POINTER target, name, min, max) and the shape of `Set`,
+//   - the offset C of the one call `lmr(d, moveCnt-C, improving, nType)` of alphaBeta,
 //   - chess.Inf / Inv / MaxPlies, the node-type constants, the `log` table of search.go,
 //   - the literal operands of the comparisons / assignments / calls of alphaBeta, quiescence,
 //     getNextMove, evaluate, iterativeDeepen, Go, softAbort and transp.Table.HashFull that the hand
@@ -27,6 +30,7 @@ import (
 	"go/token"
 	"go/types"
 	"sort"
+	"strconv"
 	"strings"
 
 	"verifextract/lib"
@@ -126,6 +130,180 @@ func arg(p *lib.Pkg, fn, src string, i int) string {
 	return constOf(p, ce.Args[i], fn+": "+src)
 }
 
+// spsaSection emits what the spsa build (params/spsa.go, `//go:build spsa`) declares:
+//
+//   - `paramsConsts`: the exported integer constants of params.go as a list (same values as the
+//     `params_*` definitions; for the symmetry check),
+//   - `spsaDefaults`: the exported package-level `int` variables of spsa.go with their initial values,
+//     in source order,
+//   - `spsaTunables`: the rows of the `tunables` table in source order as
+//     (variable the row's POINTER targets, the row's name, min, max) — pointer and name are emitted
+//     separately so that a row whose name and pointer disagree is visible to Lean,
+//   - fingerprints of `Set` and `UCIOptions` of the spsa build.
+//
+// Shape demanded (anything else ⇒ Die): `var tunables = [...]struct{ptr *int; name string; min int;
+// max int}{ {&Ident, "string", const, const}, … }` with positional rows, every pointer the address of
+// an exported package-level `int` variable of the package that has a constant initial value.
+func spsaSection(b *strings.Builder, pp *lib.Pkg, constNames []string) {
+	sq := lib.Load("/repo/params", "spsa")
+	if sq.Err != nil {
+		lib.Die("%s (tags spsa): type check: %v", sq.Dir, sq.Err)
+	}
+	b.WriteString("\n/-! ### params/spsa.go (the spsa build) and its symmetry with params/params.go -/\n")
+	quote := func(s string) string { return strconv.Quote(s) }
+
+	// the constants of params.go once more, as a list
+	{
+		var rows []string
+		for _, n := range constNames {
+			rows = append(rows, fmt.Sprintf("(%s, %s)", quote(n), lean(pp.ConstInt(n))))
+		}
+		fmt.Fprintf(b, "/-- the exported integer constants of params/params.go (sorted by name) -/\ndef paramsConsts : List (String × Int) := [%s]\n", strings.Join(rows, ", "))
+	}
+
+	// exported package-level variables of the spsa file, in source order
+	type pvar struct {
+		name, val string
+	}
+	var vars []pvar
+	isVar := map[string]bool{}
+	for _, f := range sq.Files {
+		for _, d := range f.Decls {
+			gd, ok := d.(*ast.GenDecl)
+			if !ok || gd.Tok != token.VAR {
+				continue
+			}
+			for _, s := range gd.Specs {
+				vs := s.(*ast.ValueSpec)
+				for i, n := range vs.Names {
+					if !n.IsExported() {
+						continue
+					}
+					obj, ok := sq.Info.Defs[n].(*types.Var)
+					if !ok {
+						lib.Die("params (spsa): %s is not a variable", n.Name)
+					}
+					if bt, ok := obj.Type().(*types.Basic); !ok || bt.Kind() != types.Int {
+						lib.Die("params (spsa): exported variable %s has type %s, expected int", n.Name, obj.Type())
+					}
+					if i >= len(vs.Values) {
+						lib.Die("params (spsa): exported variable %s has no initial value", n.Name)
+					}
+					vars = append(vars, pvar{n.Name, constOf(sq, vs.Values[i], "params (spsa) var "+n.Name)})
+					isVar[n.Name] = true
+				}
+			}
+		}
+	}
+	if len(vars) == 0 {
+		lib.Die("params (spsa): no exported variables found")
+	}
+	// an exported CONSTANT in the spsa file would be a parameter that cannot be set
+	sc := sq.Types.Scope()
+	for _, n := range sc.Names() {
+		if c, ok := sc.Lookup(n).(*types.Const); ok && c.Exported() {
+			lib.Die("params (spsa): unexpected exported constant %s", n)
+		}
+	}
+	{
+		var rows []string
+		for _, v := range vars {
+			rows = append(rows, fmt.Sprintf("(%s, %s)", quote(v.name), lean(v.val)))
+		}
+		fmt.Fprintf(b, "/-- the exported `int` variables of params/spsa.go with their initial values (source order) -/\ndef spsaDefaults : List (String × Int) := [%s]\n", strings.Join(rows, ", "))
+	}
+
+	// the tunables table
+	cl, ok := sq.VarDecl("tunables").(*ast.CompositeLit)
+	if !ok {
+		lib.Die("params (spsa): `tunables` is not a composite literal")
+	}
+	at, ok := cl.Type.(*ast.ArrayType)
+	if !ok {
+		lib.Die("params (spsa): `tunables` is not an array literal")
+	}
+	st, ok := at.Elt.(*ast.StructType)
+	if !ok {
+		lib.Die("params (spsa): the element type of `tunables` is not a struct type")
+	}
+	{
+		var got []string
+		for _, f := range st.Fields.List {
+			for _, n := range f.Names {
+				got = append(got, n.Name+" "+squash(sq.Source(f.Type)))
+			}
+		}
+		if want := "ptr *int|name string|min int|max int"; strings.Join(got, "|") != want {
+			lib.Die("params (spsa): the rows of `tunables` are struct{%s}, expected struct{%s}", strings.Join(got, "; "), strings.ReplaceAll(want, "|", "; "))
+		}
+	}
+	var rows []string
+	for i, el := range cl.Elts {
+		row, ok := el.(*ast.CompositeLit)
+		if !ok || len(row.Elts) != 4 {
+			lib.Die("params (spsa): tunables row %d is not a positional literal with 4 fields: %s", i, sq.Source(el))
+		}
+		for _, e := range row.Elts {
+			if _, kv := e.(*ast.KeyValueExpr); kv {
+				lib.Die("params (spsa): tunables row %d uses keyed fields: %s", i, sq.Source(el))
+			}
+		}
+		ue, ok := unparen(row.Elts[0]).(*ast.UnaryExpr)
+		if !ok || ue.Op != token.AND {
+			lib.Die("params (spsa): tunables row %d: the pointer is not `&Variable`: %s", i, sq.Source(row.Elts[0]))
+		}
+		id, ok := unparen(ue.X).(*ast.Ident)
+		if !ok {
+			lib.Die("params (spsa): tunables row %d: the pointer is not the address of a plain variable: %s", i, sq.Source(row.Elts[0]))
+		}
+		obj, ok := sq.Info.Uses[id].(*types.Var)
+		if !ok || obj.Pkg() != sq.Types || obj.Parent() != sq.Types.Scope() || !isVar[id.Name] {
+			lib.Die("params (spsa): tunables row %d: &%s is not the address of an exported package-level int variable of the package", i, id.Name)
+		}
+		tv, ok := sq.Info.Types[row.Elts[1]]
+		if !ok || tv.Value == nil || tv.Value.Kind() != constant.String {
+			lib.Die("params (spsa): tunables row %d: the name is not a string constant: %s", i, sq.Source(row.Elts[1]))
+		}
+		name := constant.StringVal(tv.Value)
+		lo := constOf(sq, row.Elts[2], fmt.Sprintf("params (spsa) tunables row %d min", i))
+		hi := constOf(sq, row.Elts[3], fmt.Sprintf("params (spsa) tunables row %d max", i))
+		rows = append(rows, fmt.Sprintf("(%s, %s, %s, %s)", quote(id.Name), quote(name), lean(lo), lean(hi)))
+	}
+	if len(rows) == 0 {
+		lib.Die("params (spsa): `tunables` is empty")
+	}
+	fmt.Fprintf(b, "/-- the rows of `tunables` (source order): (the variable the row's POINTER targets, the row's name, min, max) -/\ndef spsaTunables : List (String × String × Int × Int) := [\n  %s]\n", strings.Join(rows, ",\n  "))
+
+	// `Set` must check the declared range and write through the row's pointer; `UCIOptions` prints the rows
+	fn := sq.Func("Set")
+	found := 0
+	ast.Inspect(fn.Body, func(n ast.Node) bool {
+		switch x := n.(type) {
+		case *ast.BinaryExpr:
+			if squash(sq.Source(x)) == "val<t.min||t.max<val" {
+				found |= 1
+			}
+			if squash(sq.Source(x)) == "t.name==name" {
+				found |= 4
+			}
+		case *ast.AssignStmt:
+			if squash(sq.Source(x)) == "*t.ptr=val" {
+				found |= 2
+			}
+		case *ast.RangeStmt:
+			if squash(sq.Source(x.X)) == "tunables" {
+				found |= 8
+			}
+		}
+		return true
+	})
+	if found != 15 {
+		lib.Die("params (spsa): Set is not `for _, t := range tunables { if t.name == name { if val < t.min || t.max < val {…}; *t.ptr = val … } }` (shape mask %d)", found)
+	}
+	fmt.Fprintf(b, "/-- fingerprints of the functions of the spsa build that apply the table -/\ndef spsaFingerprints : List (String × String) := [\n  (%q, %q),\n  (%q, %q)\n]\n",
+		"params.Set", sq.Fingerprint("Set"), "params.UCIOptions", sq.Fingerprint("UCIOptions"))
+}
+
 func main() {
 	outPath := flag.String("o", "", "write to this path (only if changed) instead of stdout")
 	flag.Parse()
@@ -177,6 +355,9 @@ func main() {
 		def("params_"+n, pp.ConstInt(n), "params."+n)
 	}
 
+	// ---- params/spsa.go: the spsa build (`//go:build spsa`), loaded explicitly --------------------
+	spsaSection(&b, pp, names)
+
 	// ---- the log table ----------------------------------------------------------------------------
 	b.WriteString("\n")
 	fmt.Fprintf(&b, "/-- search.log -/\ndef logTbl : List Int := %s\n", sp.Table("log").Lean())
@@ -217,6 +398,34 @@ func main() {
 		def("lmpBase", constOf(sp, sum.X, "alphaBeta lmp"), "the `1` of `quietCnt > 1+quietLimit`")
 	}
 	node(sp, ab, "quietLimit := int(d) * int(d)") // shape of the late-move-pruning limit
+	{
+		// the one call of `lmr` in alphaBeta: `lmr(d, moveCnt-C, improving, nType)`; C decides whether the index
+		// into the `log` table can be negative (the guard in front of it is `quietCnt > params.LMRStart`)
+		fd := sp.Func(ab)
+		var calls []*ast.CallExpr
+		ast.Inspect(fd.Body, func(n ast.Node) bool {
+			if ce, ok := n.(*ast.CallExpr); ok && squash(sp.Source(ce.Fun)) == "lmr" {
+				calls = append(calls, ce)
+			}
+			return true
+		})
+		if len(calls) != 1 || len(calls[0].Args) != 4 {
+			lib.Die("search: alphaBeta: expected exactly one call `lmr(d, moveCnt-C, improving, nType)`, found %d", len(calls))
+		}
+		ce := calls[0]
+		if squash(sp.Source(ce.Args[0])) != "d" || squash(sp.Source(ce.Args[2])) != "improving" || squash(sp.Source(ce.Args[3])) != "nType" {
+			lib.Die("search: alphaBeta: the call of lmr is not `lmr(d, moveCnt-C, improving, nType)`: %s", sp.Source(ce))
+		}
+		sub, ok := unparen(ce.Args[1]).(*ast.BinaryExpr)
+		if !ok || sub.Op != token.SUB || squash(sp.Source(sub.X)) != "moveCnt" {
+			lib.Die("search: alphaBeta: the move count handed to lmr is not `moveCnt-C`: %s", sp.Source(ce.Args[1]))
+		}
+		def("lmrCountOffset", constOf(sp, sub.Y, "alphaBeta lmr"), "the `1` of `lmr(d, moveCnt-1, improving, nType)`")
+		node(sp, ab, "d > 1 && quietCnt > params.LMRStart && !inCheck") // the guard in front of it
+		// lmr itself: `log[min(mCount, len(log)-1)]` — bounded above by the table, not below
+		node(sp, "lmr", "log[min(mCount, len(log)-1)]")
+		node(sp, "lmr", "log[d]")
+	}
 	def("abNoMoveScore", constOf(sp, node(sp, ab, "Score(0)").(ast.Expr), "alphaBeta Score(0)"), "`maxim = Score(0)`: no legal move and not in check")
 
 	// ---- quiescence, getNextMove, evaluate ----------------------------------------------------------
